@@ -13,8 +13,7 @@ package main
 //   dur<X> <i> <hours> <days> <months> <years>      i = 0 within, 1..5 within-hourly..yearly
 //   ptag<X> <tag>*                                  one per keep-tag list
 //   latest <sec> <nsec>                             real findLatestTimestamp
-//   win<X> <i> <sec> <nsec> <exactsec>              window start as the source computes it; exactsec
-//                                                   = the same subtraction without time.Duration overflow
+//   win<X> <i> <sec> <nsec>                         window start latest − duration (oracle: Go's time package)
 //   keep<X> <idx>*   remove<X> <idx>*   reason<X> <idx> <hex reason>*   ctr<X> <idx> <6 counters>
 //   res panic|refuse|error <msg>
 
@@ -31,7 +30,6 @@ import (
 )
 
 var _ = verifRegister("C22", streamC22)
-var _ = verifRegisterFacts(data.VerifFactsC22)
 
 type c22Snap struct {
 	idx  int
@@ -269,11 +267,17 @@ func (h *H) c22RecPolicy(p data.ExpirePolicy, latest time.Time, haveLatest bool,
 	for i, d := range c22Durs6(p) {
 		h.Rec("dur"+x, Itoa(i), Itoa(d.Hours), Itoa(d.Days), Itoa(d.Months), Itoa(d.Years))
 		if haveLatest && !d.Zero() {
-			// the expression of ApplyPolicy, verbatim
-			t := latest.AddDate(-d.Years, -d.Months, -d.Days).Add(time.Hour * time.Duration(-d.Hours))
-			// the same subtraction carried out in seconds (no time.Duration in between)
-			exact := latest.AddDate(-d.Years, -d.Months, -d.Days).Unix() - int64(d.Hours)*3600
-			h.Rec("win"+x, Itoa(i), I64(t.Unix()), Itoa(t.Nanosecond()), I64(exact))
+			// oracle (Go's time package): latest minus the duration, the hours subtracted in
+			// steps that a time.Duration can hold
+			t := latest.AddDate(-d.Years, -d.Months, -d.Days)
+			const maxHours = int(^uint64(0)>>1) / int(time.Hour)
+			hours := d.Hours
+			for hours > maxHours {
+				t = t.Add(-time.Duration(maxHours) * time.Hour)
+				hours -= maxHours
+			}
+			t = t.Add(-time.Duration(hours) * time.Hour)
+			h.Rec("win"+x, Itoa(i), I64(t.Unix()), Itoa(t.Nanosecond()))
 		}
 	}
 	for _, l := range p.Tags {
